@@ -4,7 +4,8 @@ from __future__ import annotations
 import ast
 
 from ..cfg import cfg_of, T as TRUE, F as FALSE
-from ..dataflow import derives
+from ..dataflow import derives, rd_of, resolve_local, resolve_name, return_values, expand_locals
+from .common_guard import raise_facts, path_facts, facts, guard, rel
 from ..loader import dotted, walk_no_nested
 
 
@@ -34,17 +35,28 @@ def eq(ctx, rule="C18.fields"):
     # every per-command comparison result reaches the verdict
     loop = [n for n in walk_no_nested(f.node) if isinstance(n, ast.For)]
     ctx.require(loop, "Program.__eq__ has no command loop")
+    # (a flag = a loop-body local computed from both commands; it counts as used when some verdict test in the loop is
+    #  computed from it, directly or through further temporaries)
+    rdl = rd_of(f.node)
+    tgt_names = {x.id for x in ast.walk(loop[0].target) if isinstance(x, ast.Name)}
     flags = []
     for st in loop[0].body:
         if isinstance(st, ast.Assign) and isinstance(st.targets[0], ast.Name):
-            flags.append(st.targets[0].id)
+            nm_ = {x.id for x in ast.walk(st.value) if isinstance(x, ast.Name)}
+            if len(tgt_names & nm_) >= 2:
+                flags.append((st.targets[0].id, st))
     used = set()
     for n in ast.walk(loop[0]):
         if isinstance(n, ast.If):
-            used |= {x.id for x in ast.walk(n.test) if isinstance(x, ast.Name)}
-    for fl in flags:
+            ids = cfg.node_of_expr(n.test)
+            d = derives(f.node, n.test, ids[0] if ids else None)
+            used |= {dd.var for dd in d.defs} | {x.id for x in ast.walk(n.test) if isinstance(x, ast.Name)}
+    for k, (fl, st) in enumerate(flags):
+        what = next((a for a in ("__class__", "dagger", "reg", "p") if any(
+            isinstance(x, ast.Attribute) and x.attr == a or isinstance(x, ast.Constant) and x.value == a
+            for x in ast.walk(st.value))), str(k))
         ok = fl in used
-        ctx.ob(rule, f.site, ok, "" if ok else f"`{fl}` is computed but does not take part in the verdict", role=f"used:{fl}",
+        ctx.ob(rule, f.site, ok, "" if ok else f"`{fl}` is computed but does not take part in the verdict", role=f"used:{what}",
                line=loop[0].lineno)
     # target and register compared
     for a in ("target", "register"):
@@ -61,23 +73,30 @@ def eq(ctx, rule="C18.fields"):
         ctx.ob(rule, g.site, ok, "" if ok else f"program_equivalence does not match nodes on the {what} (attribute '{k}')",
                role=f"match:{k}", line=nm.node.lineno)
     # the wire attribute of a generic operation must derive from its register
+    wm = {dotted(n.args[1]) for n in walk_no_nested(g.node) if isinstance(n, ast.Call) and dotted(n.func) == "nx.set_node_attributes"
+          and len(n.args) >= 2 and any(k.arg == "name" and isinstance(k.value, ast.Constant) and k.value.value == "w" for k in n.keywords)}
+    ctx.require(wm and None not in wm, "program_equivalence no longer sets the wire attribute 'w' from a mapping")
     defaults = [n for n in walk_no_nested(g.node) if isinstance(n, ast.Assign) and isinstance(n.targets[0], ast.Subscript)
-                and dotted(n.targets[0].value) == "wire_mapping"]
+                and dotted(n.targets[0].value) in wm]
     generic = [n for n in defaults if not any(isinstance(p, ast.If) for p in _parents(n, g.node))]
     ok = bool(generic) and all(any(isinstance(x, ast.Attribute) and x.attr == "reg" for x in ast.walk(n.value)) for n in generic)
     ctx.ob(rule, g.site, ok, "" if ok else "for every operation other than CXgate / BSgate the wire attribute is the constant "
            "0: Sgate(r) | q[0] and Sgate(r) | q[1] are reported equivalent (modes ignored)", role="match:modes-generic",
            line=(generic[0].lineno if generic else g.node.lineno))
-    # every match flag computed in node_match reaches each return
-    flags = [st.targets[0].id for st in nm.node.body if isinstance(st, ast.Assign) and isinstance(st.targets[0], ast.Name)]
-    rets = [n for n in walk_no_nested(nm.node) if isinstance(n, ast.Return) and n.value is not None]
-    for r in rets:
-        names = {x.id for x in ast.walk(r.value) if isinstance(x, ast.Name)}
-        for fl in flags:
-            if fl == "p_match":
-                continue
-            ok = fl in names
-            ctx.ob(rule, nm.site, ok, "" if ok else f"a return of node_match ignores `{fl}`", role=f"ret:{fl}", line=r.lineno)
+    # every return of node_match is computed from the compared attributes of BOTH nodes (whatever temporaries are used)
+    cfgm = cfg_of(nm.node)
+    for k, (r, rv) in enumerate(return_values(nm.node)):
+        ids = cfgm.find(r)
+        d = derives(nm.node, r.value, ids[0] if ids else None)
+        read = {}
+        for e in d.exprs:
+            if isinstance(e, ast.Subscript) and isinstance(e.slice, ast.Constant) and isinstance(e.value, ast.Name):
+                read.setdefault(e.slice.value, set()).add(e.value.id)
+        under_params = any(truth and "compare_params" in ast.unparse(a) for a, truth in path_facts(cfgm, ids[0])) if ids else False
+        for attr in ("name", "dagger", "w") + (("p",) if under_params else ()):
+            ok = len(read.get(attr, ())) >= 2
+            ctx.ob(rule, nm.site, ok, "" if ok else f"a return of node_match does not depend on attribute '{attr}' of both nodes",
+                   role=f"ret{k}:{attr}", line=r.lineno)
     ctx.floor(rule, 14)
 
 
@@ -99,14 +118,22 @@ def length(ctx, rule="C18.length"):
             dotted(n.iter.func) == "zip" and all((dotted(a) or "").endswith(".circuit") for a in n.iter.args)]
     ctx.require(zips, "Program.__eq__ no longer zips the circuits")
     zid = cfg.find(zips[0])[0]
+    # some `return False` is taken whenever the lengths differ, ahead of the zip
     ok = False
-    for n in cfg.nodes:
-        if n.kind == "if" and isinstance(n.ast, ast.Compare) and isinstance(n.ast.ops[0], ast.NotEq) and \
-                ast.unparse(n.ast).count("len(") == 2 and ast.unparse(n.ast).count(".circuit") == 2 and cfg.dominates(n.id, zid):
-            # the true branch returns False
-            firsts = [b for b, l in cfg.succ[n.id] if l == TRUE]
-            ok = any(isinstance(cfg.node(b).ast, ast.Return) and isinstance(cfg.node(b).ast.value, ast.Constant)
-                     and cfg.node(b).ast.value.value is False for b in firsts)
+    for nd in cfg.nodes:
+        if nd.kind == "stmt" and isinstance(nd.ast, ast.Return) and isinstance(nd.ast.value, ast.Constant) and \
+                nd.ast.value.value is False and zid not in cfg.reachable([nd.id], exc=False):
+            for h, lab in cfg.branch_conditions(nd.id):
+                hn = cfg.node(h)
+                if hn.kind != "if" or not cfg.dominates(h, zid):
+                    continue
+                from .common_guard import sufficient
+                for a, v in sufficient(hn.ast, lab == TRUE):
+                    a = expand_locals(f.node, a)
+                    r_ = rel(a, v)
+                    t = ast.unparse(a)
+                    if r_ is not None and r_[0] == "!=" and t.count("len(") == 2 and t.count(".circuit") == 2:
+                        ok = True
     ctx.ob(rule, f.site, ok, "" if ok else "the circuits are zipped without comparing their lengths: a program equals any "
            "proper prefix of itself (and __eq__ is not symmetric in effect)", role="length-guard", line=zips[0].lineno)
     ctx.floor(rule, 1)
@@ -119,12 +146,21 @@ def relation(ctx, rule="C18.relation"):
     cfg = cfg_of(g.node)
     a, b = g.pos_params[0], g.pos_params[1]
     ok = False
-    for n in cfg.nodes:
-        if n.kind == "if" and isinstance(n.ast, ast.Compare) and isinstance(n.ast.ops[0], ast.Is) and \
-                {dotted(n.ast.left), dotted(n.ast.comparators[0])} == {a, b}:
-            firsts = [x for x, l in cfg.succ[n.id] if l == TRUE]
-            ok = any(isinstance(cfg.node(x).ast, ast.Return) and isinstance(cfg.node(x).ast.value, ast.Constant)
-                     and cfg.node(x).ast.value.value is True for x in firsts)
+    first_eff = min([cfg.node_of_expr(n)[0] for n in walk_no_nested(g.node) if isinstance(n, ast.Call) and
+                     dotted(n.func) == "list_to_DAG" and cfg.node_of_expr(n)] or [None], key=lambda x: (x is None, x))
+    for nd in cfg.nodes:
+        if nd.kind == "stmt" and isinstance(nd.ast, ast.Return) and isinstance(nd.ast.value, ast.Constant) and \
+                nd.ast.value.value is True:
+            for h, lab in cfg.branch_conditions(nd.id):
+                hn = cfg.node(h)
+                if hn.kind != "if":
+                    continue
+                from .common_guard import sufficient
+                for a_, v in sufficient(hn.ast, lab == TRUE):
+                    r_ = rel(a_, v)
+                    if r_ is not None and r_[0] == "is" and {dotted(r_[1]), dotted(r_[2])} == {a, b}:
+                        # ... and it is taken before the programs are looked at
+                        ok = first_eff is None or cfg.dominates(h, first_eff)
     ctx.ob(rule, g.site, ok, "" if ok else "program_equivalence lost its identity shortcut (reflexivity for programs whose "
            "parameters cannot be evaluated)", role="reflexive", line=g.node.lineno)
     # both DAGs are built the same way: the loop `for G in (DAG1, DAG2)` treats the two programs alike
@@ -151,7 +187,8 @@ def relation(ctx, rule="C18.relation"):
            "compared: ordering across the dropped commands is lost", role="no-node-removal",
            line=(rm[0].lineno if rm else g.node.lineno))
     iso = [n for n in walk_no_nested(g.node) if isinstance(n, ast.Call) and (dotted(n.func) or "").endswith("is_isomorphic")]
-    ok = bool(iso) and len(iso[0].args) >= 3 and dotted(iso[0].args[2]) == "node_match"
+    ok = bool(iso) and (len(iso[0].args) >= 3 and dotted(iso[0].args[2]) == "node_match" or
+                        any(k.arg == "node_match" and dotted(k.value) == "node_match" for k in iso[0].keywords))
     ctx.ob(rule, g.site, ok, "" if ok else "the isomorphism test does not use node_match", role="uses-node-match", line=g.node.lineno)
     ctx.floor(rule, 8)
 
